@@ -61,18 +61,30 @@ def core_properties_default_rule(ctx, prog, rid):
     """A package without core properties gains a related default part on first access (shared by C16 R16.4 and C18 R18.5)."""
     pkg = prog.cls("pptx.package", "Package")
     cp = pkg.methods.get("core_properties")
-    good = False
-    for n in ast.walk(cp.node) if cp else []:
-        if isinstance(n, ast.Try):
-            body_ret = any(isinstance(x, ast.Return) and isinstance(x.value, ast.Call) and dotted(x.value.func) == "self.part_related_by"
-                           and dotted(x.value.args[0]) == "RT.CORE_PROPERTIES" for x in n.body)
-            for h in n.handlers:
-                if dotted(h.type) == "KeyError":
-                    mk = [x for x in ast.walk(h) if isinstance(x, ast.Call) and dotted(x.func) == "CorePropertiesPart.default"]
-                    rl = [x for x in ast.walk(h) if isinstance(x, ast.Call) and dotted(x.func) == "self.relate_to"
-                          and any(dotted(a) == "RT.CORE_PROPERTIES" for a in x.args)]
-                    rt = [x for x in h.body if isinstance(x, ast.Return)]
-                    good = body_ret and bool(mk) and bool(rl) and bool(rt)
+    if cp is None:
+        raise AnalysisError("anchor vanished: Package.core_properties")
+    from sa import paths as P_
+    from sa.inline import expand as _expand
+
+    cx = _expand(prog, cp, local_only=True)
+    rows = [r for r in P_.outcomes(cx.body, P_.aliases(cx)) if r.end == "return"]
+    found = [r for r in rows if not r.handlers and r.value == "self.part_related_by(RT.CORE_PROPERTIES)"]
+    good, seen_absent = bool(found), False
+    for r in rows:
+        if "KeyError" not in r.handlers:
+            continue
+        seen_absent = True
+        val = {}
+        for st in r.path.stmts():
+            if isinstance(st, ast.Assign) and len(st.targets) == 1 and isinstance(st.targets[0], ast.Name):
+                val[st.targets[0].id] = st.value
+        made = [k for k, v in val.items() if isinstance(v, ast.Call) and dotted(v.func) == "CorePropertiesPart.default"]
+        related = [c for st in r.path.stmts() for c in ast.walk(st) if isinstance(c, ast.Call) and dotted(c.func) == "self.relate_to"
+                   and len(c.args) >= 2 and dotted(c.args[0]) in made and dotted(c.args[1]) == "RT.CORE_PROPERTIES"]
+        if not (made and related and r.value in made):
+            good = False
+    if not seen_absent:
+        good = False
     if good:
         ctx.ok(rid, "Package.core_properties", sample={"absent": "CorePropertiesPart.default(self) related with RT.CORE_PROPERTIES and returned"})
     else:
@@ -131,27 +143,49 @@ def run(ctx):
     if rx is None:
         raise AnalysisError("anchor vanished: PackageReader.rels_xml_for")
     check_fn(rx, lambda m: m.endswith("_blob_reader"), "the blob reader")
-    rets = [n.value for n in walk_own(rx.node) if isinstance(n, ast.Return)]
-    if rets and all(isinstance(r, ast.IfExp) and isinstance(r.orelse, ast.Constant) and r.orelse.value is None for r in rets):
+    from sa import paths as P_
+    from sa.inline import expand as _expand
+
+    rxx = _expand(prog, rx)
+    rows = [r for r in P_.outcomes(rxx.body, P_.aliases(rxx)) if r.end == "return"]
+
+    def absent(fs):
+        return P_.implied(fs, lambda a: a[0] == "in" and a[2].endswith("_blob_reader") and a[3] is False)
+
+    none_rows = [r for r in rows if r.value == "None" and (absent(r.facts) or "KeyError" in r.handlers)]
+    wrong = [r for r in rows if r.value != "None" and absent(r.facts)]
+    if none_rows and not wrong:
         ctx.ok("R16.1", "PackageReader.rels_xml_for:absent", sample={"absent_item": "returns None"})
-    else:
+    elif wrong or (rows and not any(r.value == "None" for r in rows) and not any(
+            isinstance(c, ast.Call) and isinstance(c.func, ast.Attribute) and c.func.attr == "get" for c in ast.walk(rxx))):
         ctx.violation("R16.1", "PackageReader.rels_xml_for:absent", "a part without a relationship item does not yield None",
                       file=rx.file, line=rx.line)
-    xrf = ldr.methods.get("_xml_rels_for")
-    good = False
-    for n in walk_own(xrf.node) if xrf else []:
-        if isinstance(n, ast.IfExp) and isinstance(n.test, ast.Compare) and isinstance(n.test.ops[0], ast.Is) \
-                and isinstance(n.test.comparators[0], ast.Constant) and n.test.comparators[0].value is None \
-                and isinstance(n.body, ast.Call) and dotted(n.body.func) == "CT_Relationships.new":
-            good = True
-        if isinstance(n, ast.IfExp) and isinstance(n.test, ast.Compare) and isinstance(n.test.ops[0], ast.IsNot) \
-                and isinstance(n.orelse, ast.Call) and dotted(n.orelse.func) == "CT_Relationships.new":
-            good = True
-    if good:
-        ctx.ok("R16.1", "_PackageLoader._xml_rels_for", sample={"no_rels_item": "empty CT_Relationships"})
     else:
+        ctx.error("PackageReader.rels_xml_for", "the outcome for an absent relationship item is not recognised")
+    xrf = ldr.methods.get("_xml_rels_for")
+    if xrf is None:
+        raise AnalysisError("anchor vanished: _PackageLoader._xml_rels_for")
+    xx = _expand(prog, xrf)
+    val = P_.value_aliases(xx)
+    srcs = {k for k, v in val.items() if isinstance(v, ast.Call) and isinstance(v.func, ast.Attribute) and v.func.attr == "rels_xml_for"}
+    rows = [r for r in P_.outcomes(xx.body, P_.aliases(xx)) if r.end == "return"]
+
+    def is_none(fs, flag):
+        return P_.implied(fs, lambda a: (a[0] == "none" and a[1] in srcs and a[2] is flag) or (a[0] == "truthy" and a[1] in srcs and a[2] is (not flag)))
+
+    def mentions(r):
+        return r.value is not None and any(isinstance(x, ast.Name) and x.id in srcs for x in ast.walk(ast.parse(r.value, mode="eval")))
+
+    # the empty set is whatever is built without the (absent) relationship bytes; the parsed set is built from them
+    empties = [r for r in rows if is_none(r.facts, True) and not mentions(r) and r.value != "None"]
+    parsed_none = [r for r in rows if mentions(r) and not is_none(r.facts, False)]
+    if srcs and empties and not parsed_none:
+        ctx.ok("R16.1", "_PackageLoader._xml_rels_for", sample={"no_rels_item": "empty CT_Relationships", "built_as": empties[0].value[:80]})
+    elif srcs and parsed_none:
         ctx.violation("R16.1", "_PackageLoader._xml_rels_for", "a missing relationship item is parsed instead of replaced by an empty set",
-                      file=pk.relpath, line=xrf.line if xrf else 1)
+                      file=pk.relpath, line=xrf.line)
+    else:
+        ctx.error("_PackageLoader._xml_rels_for", "the handling of a missing relationship item is not recognised")
     # parts ⊆ reached names: the part dict is built by iterating self._xml_rels
     al = aliases(pf.node)
     from checks.c01 import part_construction
@@ -179,24 +213,66 @@ def run(ctx):
                       "looked up by the same key: %s)" % (src_ok, use_ok), file=pk.relpath, line=ld.line if ld else 1)
     # traversal: external skipped, visited skipped
     xr = ldr.methods.get("_xml_rels")
-    inner = [n for n in xr.node.body if isinstance(n, ast.FunctionDef)] if xr else []
-    good = False
-    if inner:
-        lp = [n for n in ast.walk(inner[0]) if isinstance(n, ast.For)]
-        if lp:
-            body = lp[0].body
-            skip_ext = any(isinstance(st, ast.If) and isinstance(st.test, ast.Compare) and dotted(st.test.comparators[0]) == "RTM.EXTERNAL"
-                           and any(isinstance(x, ast.Continue) for x in st.body) for st in body)
-            skip_vis = any(isinstance(st, ast.If) and isinstance(st.test, ast.Compare) and isinstance(st.test.ops[0], ast.In)
-                           and dotted(st.test.comparators[0]) == "visited_partnames" and any(isinstance(x, ast.Continue) for x in st.body)
-                           for st in body)
-            marks = any(isinstance(c, ast.Call) and dotted(c.func) == "visited_partnames.add" for c in ast.walk(inner[0]))
-            good = skip_ext and skip_vis and marks
-    if good:
-        ctx.ok("R16.1", "_PackageLoader._xml_rels:walk", sample={"skips": "external targets and names already visited (cycles terminate)"})
+    if xr is None:
+        raise AnalysisError("anchor vanished: _PackageLoader._xml_rels")
+    from sa.desugar import desugar as _desugar
+
+    # the walker is the recursive function reachable from _xml_rels: a nested def or a method called on self
+    cands = [(n, n.name, False) for n in ast.walk(xr.node) if isinstance(n, ast.FunctionDef) and n is not xr.node]
+    for c in ast.walk(xr.node):
+        if isinstance(c, ast.Call) and isinstance(c.func, ast.Attribute) and dotted(c.func.value) == "self" and c.func.attr in ldr.methods:
+            cands.append((ldr.methods[c.func.attr].node, c.func.attr, True))
+
+    def self_calls(node, name, is_m):
+        return [c for c in ast.walk(node) if isinstance(c, ast.Call) and (
+            (is_m and isinstance(c.func, ast.Attribute) and c.func.attr == name and dotted(c.func.value) == "self")
+            or (not is_m and isinstance(c.func, ast.Name) and c.func.id == name))]
+
+    walkers = [(n, nm, im) for n, nm, im in cands if self_calls(n, nm, im)]
+    if len(walkers) != 1:
+        ctx.error("_PackageLoader._xml_rels", "the recursive relationship walk is not recognised (%d candidates)" % len(walkers))
     else:
-        ctx.violation("R16.1", "_PackageLoader._xml_rels:walk", "the relationship walk does not skip external targets / visited names",
-                      file=pk.relpath, line=xr.line if xr else 1)
+        wn, wname, wm = walkers[0]
+        wd = _desugar(wn)
+        wal, wval = P_.aliases(wd), P_.value_aliases(wd)
+        params = [a.arg for a in wd.args.args if a.arg != "self"]
+        rec = self_calls(wd, wname, wm)
+        probs, n_paths = [], 0
+        loops = [n for n in ast.walk(wd) if isinstance(n, ast.For) and any(c in list(ast.walk(n)) for c in rec)]
+        marks_self = set()
+        for st in wd.body:
+            for x in ast.walk(st) if not isinstance(st, (ast.For, ast.While, ast.If)) else []:
+                if isinstance(x, ast.Call) and isinstance(x.func, ast.Attribute) and x.func.attr == "add" and x.args and dotted(x.args[0]) == (params[0] if params else None):
+                    marks_self.add(dotted(x.func.value))
+                if isinstance(x, ast.Assign) and isinstance(x.targets[0], ast.Subscript) and dotted(x.targets[0].slice) == (params[0] if params else None):
+                    marks_self.add(dotted(x.targets[0].value))
+        for lp in loops:
+            for pth in P_.enum_paths(lp.body):
+                calls = [c for c in rec if pth.index_of(c) is not None]
+                for c in calls:
+                    n_paths += 1
+                    fs = P_.facts(pth, pth.index_of(c), wal)
+                    tgt = c.args[0] if c.args else None
+                    tsrc = P_.norm(tgt, wal) if tgt is not None else None
+                    tval = ast.unparse(wval[tsrc]) if tsrc in wval else None
+                    not_ext = P_.implied(fs, lambda a: a[0] == "cmp" and (
+                        (a[3] == "RTM.EXTERNAL" and a[4] is (a[1] == "NotEq")) or (a[3] == "RTM.INTERNAL" and a[4] is (a[1] == "Eq"))) and a[2].endswith(".targetMode"))
+                    marked_here = {dotted(x.func.value) for e in pth.events[:pth.index_of(c)] if e[0] == "stmt" for x in ast.walk(e[1])
+                                   if isinstance(x, ast.Call) and isinstance(x.func, ast.Attribute) and x.func.attr == "add" and x.args
+                                   and P_.norm(x.args[0], wal) == tsrc}
+                    unvisited = P_.implied(fs, lambda a: a[0] == "in" and a[1] in (tsrc, tval) and a[3] is False and a[2] in (marks_self | marked_here))
+                    if not not_ext:
+                        probs.append("the walk recurses into a target without having established that the relationship is not External")
+                    if not unvisited:
+                        probs.append("the walk recurses into a target without having established that it is not yet visited "
+                                     "(a set/dict the walker marks with each source): a reference cycle does not terminate")
+        if not n_paths:
+            ctx.error("_PackageLoader._xml_rels", "no recursive call inside a loop over relationships")
+        elif probs:
+            ctx.violation("R16.1", "_PackageLoader._xml_rels:walk", "; ".join(sorted(set(probs))), file=pk.relpath, line=xr.line)
+        else:
+            ctx.ok("R16.1", "_PackageLoader._xml_rels:walk", sample={"walker": wname, "skips": "external targets and names already visited (cycles terminate)",
+                                                                 "visited": sorted(marks_self)})
     # interprocedural: target lookup only behind the dangling-target filter
     rel = pk.classes.get("_Relationship")
     rels = pk.classes.get("_Relationships")
@@ -204,41 +280,137 @@ def run(ctx):
     lf = rels.methods.get("load_from_xml") if rels else None
     if not (fx and lf):
         raise AnalysisError("anchor vanished: _Relationship.from_xml / _Relationships.load_from_xml")
+    # (1) inside from_xml every parts[K] is on paths where the relationship is not External; (2) at every call site the caller has
+    # established, on every path, that the relationship is not Internal or that K (renamed through the arguments) is in parts
+    fxx = _expand(prog, fx, local_only=True)
+    fal, fval = P_.aliases(fxx), P_.value_aliases(fxx)
+    fparams = [a.arg for a in fx.node.args.args][1:]
+    parts_p = fparams[2] if len(fparams) > 2 else None
+    dd = [n for n in ast.walk(fxx) if isinstance(n, ast.Subscript) and isinstance(n.ctx, ast.Load) and dotted(n.value) == parts_p]
+
+    def mode_fact(a, internal):
+        """atom says targetMode is Internal (internal=True) / is External (internal=False)"""
+        if a[0] != "cmp" or not a[2].endswith("targetMode"):
+            return False
+        if a[3] == "RTM.INTERNAL":
+            return a[4] is ((a[1] == "Eq") == internal)
+        if a[3] == "RTM.EXTERNAL":
+            return a[4] is ((a[1] == "Eq") != internal)
+        return False
+
+    def full(src, val, depth=4):
+        """substitute value aliases (calls included) in a source expression"""
+        class Sub(ast.NodeTransformer):
+            def visit_Name(self, n):
+                return copy.deepcopy(val[n.id]) if n.id in val else n
+        import copy
+        t = ast.parse(src, mode="eval").body
+        for _ in range(depth):
+            t = Sub().visit(t)
+        return ast.unparse(t)
+
+    def proves_present(fs, key, pmap, val, assume_internal):
+        """facts |- key in pmap, using that a relationship is Internal or External and nothing else (checked below)"""
+        internal = {True for a in fs if mode_fact(a, True)} | {False for a in fs if mode_fact(a, False)}
+        if assume_internal:
+            if False in internal:
+                return True  # the relationship is External on this path: the callee does not look the target up
+            internal.add(True)
+
+        def sat(a):
+            return a[0] == "in" and a[3] is True and full(a[1], val) == key and full(a[2], val) == pmap
+
+        def dead(alt):
+            return any((mode_fact(a, True) and False in internal) or (mode_fact(a, False) and True in internal) for a in alt)
+
+        for a in fs:
+            if a[0] == "or":
+                if a[1] and all(dead(alt) or any(sat(x) for x in alt) for alt in a[1]):
+                    return True
+            elif sat(a):
+                return True
+        return False
+
+    def innermost(root, node):
+        owner = root
+        for fn in ast.walk(root):
+            if isinstance(fn, (ast.FunctionDef, ast.For)) and fn is not root and any(x is node for x in ast.walk(fn)):
+                owner = fn
+        return owner
+
+    import copy
+
+    # derefs inside from_xml itself
+    inner_ok, keys, self_guarded = bool(dd), [], True
+    for d in dd:
+        hit = False
+        k = full(P_.norm(d.slice, fal), fval)
+        for pth in P_.enum_paths(fxx.body):
+            i = pth.index_of(d)
+            if i is None:
+                continue
+            hit = True
+            fs = P_.facts(pth, i, fal)
+            if not proves_present(fs, k, parts_p, fval, False):
+                self_guarded = False
+                if not P_.implied(fs, lambda a: mode_fact(a, True)):
+                    inner_ok = False
+        if not hit:
+            inner_ok = False
+        keys.append(k)
     callers = []
     for g in prog.all_functions():
         for c in ast.walk(g.node):
-            if isinstance(c, ast.Call) and (dotted(c.func) or "").endswith("_Relationship.from_xml"):
-                callers.append((g, c))
-    fparams = [a.arg for a in fx.node.args.args][1:]
-    dd = derefs(fx.node, lambda m: m == fparams[2])
-    ext_branch = any(isinstance(n, ast.IfExp) and isinstance(n.test, ast.Compare) and dotted(n.test.comparators[0]) == "RTM.EXTERNAL"
-                     and isinstance(n.test.ops[0], ast.Eq) and any(x is d[0] for d in dd for x in ast.walk(n.orelse)) for n in ast.walk(fx.node))
-    good = len(callers) == 1 and callers[0][0].qualname.startswith("_Relationships.load_from_xml") and len(dd) == 1 and ext_branch
-    guard_ok = False
-    if good:
-        g, c = callers[0]
-        # in the caller: `if targetMode == INTERNAL: partname = from_rel_ref(base_uri, rel.target_ref); if partname not in parts: continue`
-        for lp in [n for n in ast.walk(lf.node) if isinstance(n, ast.For)]:
-            for i, st in enumerate(lp.body):
-                if isinstance(st, ast.If) and isinstance(st.test, ast.Compare) and dotted(st.test.comparators[0]) == "RTM.INTERNAL" \
-                        and isinstance(st.test.ops[0], ast.Eq):
-                    asg = [x for x in st.body if isinstance(x, ast.Assign)]
-                    chk = [x for x in st.body if isinstance(x, ast.If) and isinstance(x.test, ast.Compare) and isinstance(x.test.ops[0], ast.NotIn)
-                           and any(isinstance(y, ast.Continue) for y in x.body)]
-                    if asg and chk and dotted(chk[0].test.left) == asg[0].targets[0].id:
-                        kcall = asg[0].value
-                        dk = dd[0][0].slice
-                        # same key expression modulo the parameter names of from_xml
-                        ren = dict(zip(fparams, [ast.unparse(a) for a in c.args]))
+            if isinstance(c, ast.Call) and ((dotted(c.func) or "").endswith("_Relationship.from_xml")
+                                            or (g.cls is rel and dotted(c.func) in ("cls.from_xml", "self.from_xml"))):
+                callers.append(g)
+    good = bool(callers) and inner_ok and len(set(keys)) == 1
+    guard_ok = good
+    seen_sites = 0
+    for g in ({id(x): x for x in callers}.values() if good else []):
+        gx = _expand(prog, g, local_only=True)
+        gal, gval = P_.aliases(gx), P_.value_aliases(gx)
+        # call sites that remain calls
+        sites = [c for c in ast.walk(gx) if isinstance(c, ast.Call) and (dotted(c.func) or "").endswith("from_xml") and len(c.args) == 3]
+        for c in sites:
+            seen_sites += 1
+            ren = dict(zip(fparams, c.args))
 
-                        class R(ast.NodeTransformer):
-                            def visit_Name(self, n):
-                                return ast.Name(id=ren.get(n.id, n.id), ctx=n.ctx)
-                        import copy
+            class R(ast.NodeTransformer):
+                def visit_Name(self, n):
+                    return copy.deepcopy(ren[n.id]) if n.id in ren else n
 
-                        want = ast.unparse(R().visit(copy.deepcopy(dk)))
-                        guard_ok = ast.unparse(kcall) == want and dotted(chk[0].test.comparators[0]) == ast.unparse(c.args[2]) \
-                            and any(x is c for later in lp.body[i + 1:] for x in ast.walk(later))
+            want = full(ast.unparse(R().visit(ast.parse(keys[0], mode="eval").body)), gval)
+            pmap = full(P_.norm(c.args[2], gal), gval)
+            owner = innermost(gx, c)
+            found = False
+            for pth in P_.enum_paths(owner.body):
+                i = pth.index_of(c)
+                if i is None:
+                    continue
+                found = True
+                if not self_guarded and not proves_present(P_.facts(pth, i, gal), want, pmap, gval, True):
+                    guard_ok = False
+            if not found:
+                guard_ok = False
+        # call sites that were inlined: the lookup itself is now in the caller
+        for d in [n for n in ast.walk(gx) if isinstance(n, ast.Subscript) and isinstance(n.ctx, ast.Load) and isinstance(n.value, ast.Name)
+                  and "from_rel_ref(" in full(P_.norm(n.slice, gal), gval)]:
+            seen_sites += 1
+            owner = innermost(gx, d)
+            k, pm = full(P_.norm(d.slice, gal), gval), full(P_.norm(d.value, gal), gval)
+            found = False
+            for pth in P_.enum_paths(owner.body):
+                i = pth.index_of(d)
+                if i is None:
+                    continue
+                found = True
+                if not proves_present(P_.facts(pth, i, gal), k, pm, gval, False):
+                    guard_ok = False
+            if not found:
+                guard_ok = False
+    if good and not seen_sites:
+        guard_ok = False
     tm = prog.cls("pptx.oxml.simpletypes", "ST_TargetMode")
     two_valued = False
     v = tm.methods.get("validate") if tm else None
@@ -263,39 +435,47 @@ def run(ctx):
     fac = ppr.methods.get("factory") if ppr else None
     if fac is None:
         raise AnalysisError("anchor vanished: _PhysPkgReader.factory")
-    body = [st for st in fac.node.body if not (isinstance(st, ast.Expr) and isinstance(st.value, ast.Constant))]
-    outcomes = []
-    str_known = False
-    probs = []
-    for st in body:
-        if isinstance(st, ast.If):
-            t = st.test
-            tsrc = ast.unparse(t)
-            ret = [x for x in st.body if isinstance(x, ast.Return)]
-            what = dotted(ret[0].value.func) if ret and isinstance(ret[0].value, ast.Call) else None
-            if tsrc.replace(" ", "") in ("notisinstance(pkg_file,str)",):
-                outcomes.append(("stream", what))
-                str_known = True
-            elif "os.path.isdir" in tsrc:
-                outcomes.append(("dir", what))
-            elif "is_zipfile" in tsrc:
-                outcomes.append(("zip", what))
-            elif what == "_ZipPkgReader":
-                probs.append("the zip reader is chosen under `%s`, not after zipfile.is_zipfile: an existing file that is not a zip raises "
-                             "BadZipFile instead of PackageNotFoundError" % tsrc)
-            else:
-                probs.append("unrecognised branch `%s`" % tsrc)
-        elif isinstance(st, ast.Raise):
-            outcomes.append(("else", dotted(st.exc.func) if isinstance(st.exc, ast.Call) else dotted(st.exc)))
-        elif isinstance(st, ast.Return):
-            outcomes.append(("else-return", dotted(st.value.func) if isinstance(st.value, ast.Call) else None))
-    want = [("stream", "_ZipPkgReader"), ("dir", "_DirPkgReader"), ("zip", "_ZipPkgReader"), ("else", "PackageNotFoundError")]
-    if outcomes == want and not probs:
-        ctx.ok("R16.2", "_PhysPkgReader.factory", sample={"paths": ["stream -> zip reader (BadZipFile from zipfile)", "directory -> dir reader",
-                                                                   "zip file -> zip reader", "anything else -> PackageNotFoundError"]})
+    facx = _expand(prog, fac, local_only=True)
+    pparam = fac.node.args.args[1].arg
+    rows = P_.outcomes(facx.body, P_.aliases(facx))
+
+    def tv(fs, src):
+        """truth value of the test `src` on the path: True / False / None (not tested)"""
+        for flag in (True, False):
+            if P_.implied(fs, lambda a: a[0] == "truthy" and a[1] == src and a[2] is flag):
+                return flag
+        return None
+
+    probs, table = [], []
+    for r in rows:
+        is_str = tv(r.facts, "isinstance(%s, str)" % pparam)
+        is_dir = tv(r.facts, "os.path.isdir(%s)" % pparam)
+        is_zip = tv(r.facts, "zipfile.is_zipfile(%s)" % pparam)
+        what = r.exc if r.end == "raise" else (r.value.split("(")[0] if r.end == "return" and r.value else r.end)
+        table.append({"str": is_str, "dir": is_dir, "zip": is_zip, "outcome": what})
+        if what == "_ZipPkgReader":
+            if is_str is not False and is_zip is not True:
+                probs.append("the zip reader is chosen for a path that zipfile.is_zipfile has not accepted: an existing file that is not a "
+                             "zip raises BadZipFile instead of PackageNotFoundError")
+        elif what == "_DirPkgReader":
+            if is_dir is not True:
+                probs.append("the directory reader is chosen for something os.path.isdir has not accepted")
+        elif what == "PackageNotFoundError":
+            if is_zip is not False or is_dir is not False:
+                probs.append("PackageNotFoundError is raised on a path that has not ruled out a directory and a zip file")
+        elif not (r.end == "raise" and is_dir is False and is_zip is False):
+            probs.append("unrecognised outcome %s" % what)
+        if is_str is not False and is_dir is False and is_zip is False and what != "PackageNotFoundError":
+            probs.append("a path that is neither a directory nor a zip file ends in %s, not PackageNotFoundError" % what)
+    if not any(t["outcome"] == "PackageNotFoundError" for t in table):
+        probs.append("no path ends in PackageNotFoundError")
+    if not probs and {t["outcome"] for t in table} == {"_ZipPkgReader", "_DirPkgReader", "PackageNotFoundError"}:
+        ctx.ok("R16.2", "_PhysPkgReader.factory", sample={"paths": table})
+    elif any(p.startswith("unrecognised") for p in probs):
+        ctx.error("_PhysPkgReader.factory", "; ".join(sorted(set(probs))))
     else:
         ctx.violation("R16.2", "_PhysPkgReader.factory", "for a path that is neither a directory nor a zip file the factory does not end in "
-                      "PackageNotFoundError (outcomes %s %s)" % (outcomes, probs), file=fac.file, line=fac.line)
+                      "PackageNotFoundError (%s)" % "; ".join(sorted(set(probs))), file=fac.file, line=fac.line)
     exc = prog.modules.get("pptx.exc")
     pnf = exc.classes.get("PackageNotFoundError") if exc else None
     if pnf is not None and any(getattr(k, "name", None) == "PythonPptxError" for k in prog.mro(pnf)):
